@@ -3,10 +3,12 @@ package ipnisync
 import (
 	"bytes"
 	"context"
+	"io"
 	"net/http"
 
 	"github.com/ipfs/go-cid"
 	cidlink "github.com/ipld/go-ipld-prime/linking/cid"
+	"github.com/libp2p/go-libp2p/core/network"
 	"github.com/multiformats/go-multihash"
 )
 
@@ -78,4 +80,61 @@ func VerifC02_LocalBlock() {
 	verif_Assert(ferr == nil, "a locally present block is a success")
 	verif_Assert(len(rt.requests) == 0, "a block held locally is not requested from the publisher")
 	verif_Assert(st.commits == 0, "a block held locally is not rewritten")
+}
+
+// a response body that delivers a prefix and then fails
+type c02brokenBody struct {
+	data []byte
+	pos  int
+	err  error
+}
+
+func (b *c02brokenBody) Read(p []byte) (int, error) {
+	if b.pos >= len(b.data) {
+		return 0, b.err
+	}
+	n := copy(p, b.data[b.pos:])
+	b.pos += n
+	return n, nil
+}
+func (b *c02brokenBody) Close() error { return nil }
+
+// C02: a response cut short mid-body (connection drop, stream reset), followed
+// by complete answers to any retried request: whatever the client does, a
+// committed block hashes to its CID and a success implies a valid stored block.
+func VerifC02_BrokenBody() {
+	good := []byte("okay")
+	mh, err := multihash.Sum(good, multihash.SHA2_256, -1)
+	verif_Assume(err == nil)
+	c := cid.NewCidV1(cid.Raw, mh)
+	key := cidlink.Link{Cid: c}.Binary()
+	cut := verif_Choose("bytesBeforeTheDrop", 0, len(good)-1)
+	dropErr := []error{io.ErrUnexpectedEOF, network.ErrReset}[verif_Choose("dropKind", 0, 1)]
+	brokenAttempts := verif_Choose("brokenAttempts", 1, 2)
+	st := &vStore{m: map[string][]byte{}}
+	attempts := 0
+	rt := &vRT{fn: func(req *http.Request) (*http.Response, error) {
+		attempts++
+		if attempts <= brokenAttempts {
+			return &http.Response{StatusCode: 200, Body: &c02brokenBody{data: good[:cut], err: dropErr}, Header: http.Header{}}, nil
+		}
+		return vResp(200, good), nil
+	}}
+	s := &Syncer{client: &http.Client{Transport: rt}, rootURL: vURL("http://pub.example/ipni/v1/ad"), sync: &Sync{lsys: vLsys(st)}}
+	ferr := s.fetchBlock(context.Background(), c)
+	verif_Reach("fetched")
+	stored, committed := st.m[key]
+	if committed {
+		verif_Assert(bytes.Equal(stored, good), "whatever is committed under a CID is exactly the content that hashes to it (no remnants of an aborted response)")
+	}
+	if ferr == nil {
+		verif_Assert(committed, "success implies the block is in the store")
+	} else {
+		verif_Assert(!committed, "failure commits nothing")
+	}
+	// a later sync of the same block succeeds and stores the genuine content
+	attempts = brokenAttempts
+	ferr2 := s.fetchBlock(context.Background(), c)
+	stored, committed = st.m[key]
+	verif_Assert(ferr2 == nil && committed && bytes.Equal(stored, good), "once the publisher answers completely the block is stored intact")
 }
